@@ -4,7 +4,7 @@
 import json, sys, glob, subprocess
 pid = sys.argv[1]
 base = subprocess.check_output(["python3", "/verif/tools/seed_prompt.py", pid]).decode()
-base = base.replace("/tmp/seed-out/%s/" % pid, "/tmp/seed-out3/%s/" % pid)
+base = base.replace("/tmp/seed-out/%s/" % pid, "/tmp/seed-out4/%s/" % pid)
 base = base.replace("12 failed / ~1320 passed plus 1 collection error", "11 or 12 failed / ~1320 passed plus 1 collection error")
 prev = []
 for m in sorted(glob.glob("/verif/seeded/%s-*/meta.json" % pid)):
@@ -18,6 +18,9 @@ ADDITIONAL RULES FOR THIS ROUND
 %s
 * Aim for subtle ones: two cooperating sites that each look fine alone, a multi-step sequence of operations, a
   particular fault / interleaving / history, a rare boundary - not something ordinary use exposes at once.
+* Prefer code paths none of the changes above touches: helper functions and modules that the anchored code calls,
+  argument shapes and optional parameters the existing tests never use, behaviour that depends on what was called
+  before (caches, shared mutable objects, generators left unfinished), and sizes at the far end of the stated domain.
 * Never use `git stash` (the stash is shared between worktrees); switch between clean and patched code only with
   `git apply <patch>` / `git -C <worktree> checkout -- .`.
 * If demo.py needs a machine, fake it in-process by substituting the module attributes socket / select / time of
